@@ -35,7 +35,7 @@ def library_programs():
 
 def body_programs():
     """hand-written verilogBody() methods next to a Python clock(): compared with the same machinery (clause of C01)"""
-    return [('lib2', 'MsgSequencer', 'clock')]
+    return [('lib2', 'MsgSequencer', 'clock')] + [('lib', 'SynchronousMemory@%d' % k, 'clock') for k in (0, 3, 8, 13)]
 
 
 def _make_lib2(name):
@@ -66,8 +66,9 @@ def _load_corpus(name, sub):
 
 def build(kind, name, meth):
     if kind == 'lib':
+        name, _, idx = name.partition('@')
         c = L.LEAVES[(name, meth)]
-        cfg = c.cfgs('quick')[0]
+        cfg = c.cfgs('quick')[int(idx or 0)]
         sys_, obj = L.make_instance(c, cfg)
         return obj, os.path.join(L.REPO, c.file), name, meth
     if kind == 'lib2':
@@ -137,7 +138,23 @@ def program_item(kind, name, meth, timeout_s=20, refused_expected=False, **kw):
                 for t_ in (n_.targets if isinstance(n_, ast.Assign) else [n_.target]):
                     if isinstance(t_, ast.Attribute) and isinstance(t_.value, ast.Name) and t_.value.id == 'self': assigned.add(t_.attr)
         int_fields = {a: 'self.' + a for a, v in vars(obj).items() if isinstance(v, int) and not isinstance(v, bool) and a not in L.INFRA and a in assigned}
-        pc = L.LeafContract(os.path.relpath(path, L.REPO) if path.startswith(L.REPO) else path, cls, m, make=None, cfgs=None, fields=int_fields)
+        # list-of-int attributes the method stores into (self.data[i] = v): memories, held as arrays
+        arr_attrs = {}
+        for n_ in ast.walk(fdef):
+            if isinstance(n_, ast.Assign):
+                for t_ in n_.targets:
+                    if isinstance(t_, ast.Subscript) and isinstance(t_.value, ast.Attribute) and isinstance(t_.value.value, ast.Name) and t_.value.value.id == 'self':
+                        v_ = getattr(obj, t_.value.attr, None)
+                        if isinstance(v_, list) and v_ and all(isinstance(x_, int) for x_ in v_): arr_attrs[t_.value.attr] = len(v_)
+        vmems = {n_: d_ for n_, d_ in design.mods[topname].decls.items() if d_.get('depth') is not None}
+        mem_pair = None
+        if arr_attrs:
+            if len(arr_attrs) != 1 or len(vmems) != 1:
+                R('memory-correspondence', 'unknown', reason='python arrays %s vs Verilog memories %s: no one-to-one pairing' % (sorted(arr_attrs), sorted(vmems))); return out
+            mem_pair = (next(iter(arr_attrs)), next(iter(vmems)))
+            mw_ = design.width_of(design.mods[topname], mem_pair[1], {})
+        pc = L.LeafContract(os.path.relpath(path, L.REPO) if path.startswith(L.REPO) else path, cls, m, make=None, cfgs=None, fields=int_fields,
+                            array_fields={a_: dict(lo=0, hi=(1 << mw_) - 1) for a_ in arr_attrs})
         sh = L.build_shape(obj, pc, 'concrete')
         ex = Executor(summaries=L.summaries())
         st = sh.state.clone(); st.pc = ir.TRUE
@@ -171,12 +188,31 @@ def program_item(kind, name, meth, timeout_s=20, refused_expected=False, **kw):
         fv = sh.state.heap[('f', f)]
         hyps += [ir.ge(fv, 0), ir.le(fv, DOM_HI)]
         vstate['%s.%s' % (topname, f)] = fv
+    if mem_pair:
+        arr = sh.arrays[mem_pair[0]]; A0 = sh.state.heap[('a', arr.name)]
+        for a_ in range(arr_attrs[mem_pair[0]]):
+            vstate['%s.%s#%d' % (topname, mem_pair[1], a_)] = ir.sel(A0, ir.const(a_))
+            # representation invariant of the memory content: every word fits the word width (established by clock(): it stores writedata.get())
+            hyps += [ir.ge(ir.sel(A0, ir.const(a_)), 0), ir.lt(ir.sel(A0, ir.const(a_)), 1 << mw_)]
     try:
         vouts, vnext, vinit = design.build(vin, vstate)
     except vsem.VError as e:
         R('emitted-text-is-verilog', 'refuted', model={'error': str(e)}, replay={'reproduced': True, 'got': 'elaboration error: %s' % e, 'expected': 'a closed legal module', 'verilog': text[:2500]})
         return out
     obls = []
+    if mem_pair and m == 'clock':
+        A1 = H[('a', arr.name)]
+        words = [k_ for k_ in design.state if k_.startswith('%s.%s#' % (topname, mem_pair[1]))]
+        if len(words) != arr_attrs[mem_pair[0]]:
+            R('memory-depth[%s]' % mem_pair[0], 'refuted', model={}, replay={'reproduced': True, 'got': '%d words in the Verilog memory %s' % (len(words), mem_pair[1]), 'expected': '%d (len(self.%s))' % (arr_attrs[mem_pair[0]], mem_pair[0]), 'verilog': text[:2000]})
+        for a_ in range(arr_attrs[mem_pair[0]]):
+            key = '%s.%s#%d' % (topname, mem_pair[1], a_)
+            if key in vnext:
+                obls.append(('step.memory[%s][%d]' % (mem_pair[0], a_), hyps, ir.eq(vnext[key], ir.sel(A1, ir.const(a_))), ('a', mem_pair[0], a_)))
+        uninit = [k_ for k_ in words if design.state[k_]['init'] is None]
+        R('init.memory[%s]' % mem_pair[0], 'proved' if not uninit else 'refuted', backend='const', seconds=0.0, finding_clause=bool(uninit),
+          **({} if not uninit else {'model': {}, 'cfg': {'init': None}, 'replay': {'reproduced': True, 'got': 'the %d words of %s have no initial value (x until written)' % (len(uninit), mem_pair[1]),
+                                                                                  'expected': 'all words 0, as self.%s at power-up' % mem_pair[0], 'verilog': text[:1500]}}))
     if m == 'clock':
         for f in int_fields:
             key = '%s.%s' % (topname, f)
